@@ -18,7 +18,7 @@ const pid = "C17"
 
 // Out is what a handler does for addresses/subjects containing its token.
 type Out struct {
-	Kind string `json:"kind"` // allow deny denycode defer nil noreturn number string table boolean wrongud error rterror
+	Kind string `json:"kind"` // allow deny denycode defer nil noreturn number string table boolean wrongud error rterror mutate-*
 	Code int    `json:"code,omitempty"`
 	Msg  string `json:"msg,omitempty"`
 }
@@ -94,6 +94,11 @@ func luaOut(o Out) string {
 		return `error("boom")`
 	case "rterror":
 		return "local nothing = nil; return nothing.field"
+	case "mutate-error", "mutate-nil", "mutate-garbage":
+		// edits the envelope it was shown, then does not answer: nothing of it may stick
+		edit := `pcall(function() session.from.address = "forged@evil.test"; session.from.name = "Forged" end); ` +
+			`pcall(function() if session.to[1] then session.to[1].address = "forged-rcpt@evil.test" end end); `
+		return edit + map[string]string{"mutate-error": `error("boom")`, "mutate-nil": "return nil", "mutate-garbage": "return 42"}[o.Kind]
 	}
 	return "return nil"
 }
@@ -254,7 +259,7 @@ func goListener(rules []Rule, last bool) func(event.SMTPSession) *event.SMTPResp
 // ---- generators ----
 
 var outGen = rapid.Custom(func(t *rapid.T) Out {
-	o := Out{Kind: rapid.SampledFrom([]string{"allow", "allow", "deny", "denycode", "denycode", "defer", "nil", "noreturn", "number", "string", "table", "boolean", "wrongud", "error", "rterror"}).Draw(t, "kind")}
+	o := Out{Kind: rapid.SampledFrom([]string{"allow", "allow", "deny", "denycode", "denycode", "defer", "nil", "noreturn", "number", "string", "table", "boolean", "wrongud", "error", "rterror", "mutate-error", "mutate-nil", "mutate-garbage"}).Draw(t, "kind")}
 	if o.Kind == "denycode" {
 		o.Code = rapid.SampledFrom([]int{450, 451, 452, 550, 552, 553, 554, 421}).Draw(t, "code")
 		o.Msg = rapid.SampledFrom([]string{"go away", "Try again later", "5.7.1 no", "x", "5.7.1 rejected: 100% spam score", "%s %d %v %!", "50%% off"}).Draw(t, "msg")
